@@ -123,6 +123,19 @@ type MDStr string
 
 func (s MDStr) Markdown() native.Markdown { return native.Markdown(s) }
 
+// named composite types (no methods)
+type RawBytes []byte
+type MyOctet uint8
+type Octets []MyOctet
+type MyInts []int
+type MyStrMap map[string]int
+type MyArr [2]int
+type MyPtr *int
+type MyFunc func()
+type MyChan chan int
+type MyPlain struct{ A int }
+type MyIface interface{ M() }
+
 type HTMLEnvStr string
 
 func (s HTMLEnvStr) HTML(env native.Env) native.HTML { return native.HTML(s) }
@@ -143,7 +156,12 @@ type MDEnvStr string
 
 func (s MDEnvStr) Markdown(env native.Env) native.Markdown { return native.Markdown(s) }
 
+// LibNamedComposites are named types whose underlying type is composite.
+var LibNamedComposites = []string{"RawBytes", "MyOctet", "Octets", "MyInts", "MyStrMap", "MyArr", "MyPtr", "MyFunc", "MyChan", "MyPlain", "MyIface"}
+
 var libTypes = map[string]reflect.Type{
+	"RawBytes": reflect.TypeFor[RawBytes](), "MyOctet": reflect.TypeFor[MyOctet](), "Octets": reflect.TypeFor[Octets](), "MyInts": reflect.TypeFor[MyInts](), "MyStrMap": reflect.TypeFor[MyStrMap](),
+	"MyArr": reflect.TypeFor[MyArr](), "MyPtr": reflect.TypeFor[MyPtr](), "MyFunc": reflect.TypeFor[MyFunc](), "MyChan": reflect.TypeFor[MyChan](), "MyPlain": reflect.TypeFor[MyPlain](), "MyIface": reflect.TypeFor[MyIface](),
 	"HTMLEnvStr": reflect.TypeFor[HTMLEnvStr](), "CSSEnvStr": reflect.TypeFor[CSSEnvStr](), "JSEnvStr": reflect.TypeFor[JSEnvStr](), "JSONEnvStr": reflect.TypeFor[JSONEnvStr](), "MDEnvStr": reflect.TypeFor[MDEnvStr](),
 	"MyString": reflect.TypeFor[MyString](), "MyInt": reflect.TypeFor[MyInt](), "MyFloat": reflect.TypeFor[MyFloat](), "MyBool": reflect.TypeFor[MyBool](),
 	"StrStringer": reflect.TypeFor[StrStringer](), "IntStringer": reflect.TypeFor[IntStringer](), "EnvStr": reflect.TypeFor[EnvStr](),
@@ -262,6 +280,33 @@ func (tv TV) Value() reflect.Value {
 			out.SetString(string(v.S))
 		case "MyInt", "IntStringer":
 			out.SetInt(v.I)
+		case "RawBytes":
+			out.SetBytes(append([]byte{}, v.S...))
+		case "MyOctet":
+			out.SetUint(uint64(uint8(v.U)))
+		case "Octets":
+			o := Octets{}
+			for _, b := range v.S {
+				o = append(o, MyOctet(b))
+			}
+			out.Set(reflect.ValueOf(o))
+		case "MyInts":
+			out.Set(reflect.ValueOf(MyInts{int(v.I), 2}))
+		case "MyStrMap":
+			out.Set(reflect.ValueOf(MyStrMap{"k": int(v.I)}))
+		case "MyArr":
+			out.Set(reflect.ValueOf(MyArr{int(v.I), 1}))
+		case "MyPtr":
+			x := int(v.I)
+			out.Set(reflect.ValueOf(MyPtr(&x)))
+		case "MyFunc":
+			out.Set(reflect.ValueOf(MyFunc(func() {})))
+		case "MyChan":
+			out.Set(reflect.ValueOf(make(MyChan)))
+		case "MyPlain":
+			out.Set(reflect.ValueOf(MyPlain{int(v.I)}))
+		case "MyIface":
+			// nil interface value
 		case "MyFloat":
 			out.SetFloat(v.F())
 		case "MyBool":
